@@ -137,3 +137,39 @@ func TestC13_EmptyListSnapshotAppend(t *testing.T) {
 		t.Fatalf("an append on a snapshot changed the tracked channel: %v", got)
 	}
 }
+
+// Guard (passes on the current tree; seeded/C13-4): whatever LookupUser / LookupChannel return
+// for hostmask-like or decorated arguments is nil or an isolated copy, never the tracked object.
+func TestC13_LookupOddArgumentsIsolated(t *testing.T) {
+	s := heapJoined(t)
+	defer s.Stop()
+	for _, arg := range []string{"alice!al@host.int", "alice!al", "alice@host.int", "Alice!*@*", "@alice", " alice", "alice ", "ALICE", "alice,bob"} {
+		u := s.C.LookupUser(arg)
+		if u == nil {
+			continue
+		}
+		u.Nick, u.Extras.Account = "mallory", "hijacked"
+		if len(u.ChannelList) > 0 {
+			u.ChannelList[0] = "#hijacked"
+		}
+		if got := s.C.LookupUser("alice"); got == nil || got.Nick != "alice" || got.Extras.Account != "" || got.ChannelList[0] != "#chan" {
+			t.Fatalf("[%s] writing the returned user changed the tracked one: %+v", arg, got)
+		}
+		saved := *u
+		s.Feed(":srv 354 me 1 #chan newid new.host alice acct9 :Real")
+		if u.Ident != saved.Ident || u.Host != saved.Host || u.Extras.Account != saved.Extras.Account {
+			t.Fatalf("[%s] a later WHOX reply changed a user handed out earlier: %+v", arg, u)
+		}
+	}
+	for _, arg := range []string{"@#chan", "+#chan", "#chan ", " #chan", "#CHAN", "#chan,#x", "#chan!x@y"} {
+		ch := s.C.LookupChannel(arg)
+		if ch == nil {
+			continue
+		}
+		ch.Topic = "defaced"
+		ch.UserList[0] = "zzz"
+		if got := s.C.LookupChannel("#chan"); got.Topic != "" || got.UserList[0] != "alice" {
+			t.Fatalf("[%s] writing the returned channel changed the tracked one: %+v", arg, got)
+		}
+	}
+}
